@@ -259,6 +259,35 @@ func VP_C03_exit_scope() {
 	}
 }
 
+// exit leaves no residue: a loop that is left through a non-final exit can be run any number of
+// times (the count is symbolic, up to 150 - beyond the interpreter's nesting limit of 100, so a
+// per-exit leak of nesting depth shows), also when the loops sit in a named procedure.
+func VP_C03_many_exits() {
+	intp := NewInterpreter()
+	intp.MaxOps = 100000
+	vpUnwind(400)
+	inner := vpChoose("inner", 4)
+	n := vpInt("count")
+	vpAssume(n >= 0 && n <= int(vpParam("MAXCOUNT", 150)))
+	innerBody := Procedure{Integer(7), Operator("exit"), Integer(8)}
+	tmp := NewInterpreter()
+	op, pre := vpLoop(tmp, inner, innerBody)
+	outer := Procedure{}
+	outer = append(outer, tmp.Stack...)
+	outer = append(outer, Operator(op), Operator("pop"))
+	for range pre {
+		outer = append(outer, Operator("pop"))
+	}
+	if vpChoose("named", 2) == 1 {
+		intp.UserDict["vpbody"] = outer
+		outer = Procedure{Operator("vpbody")}
+	}
+	intp.Stack = append(intp.Stack, Integer(n), outer)
+	err := vpRunOp(intp, "repeat")
+	vpAssert("loops-left-by-exit-can-be-repeated", err == nil && len(intp.Stack) == 0)
+	vpCover("done")
+}
+
 func VP_C03_toplevel() {
 	// through the public entry point: stray exit is invalidexit, stop is not an error
 	intp := NewInterpreter()
